@@ -148,41 +148,42 @@ Definition zidx_list (k page : Z) : list Z :=
 Lemma idx_list_zidx k page : idx_list k page = map Z.to_nat (zidx_list k page).
 Proof. unfold idx_list, zidx_list. destruct (k =? 2); [reflexivity|]. destruct (k =? 1); reflexivity. Qed.
 
-Fixpoint mmap (s : pstate) (t : Z) (idxs : list Z) (w frame page pf : Z) : res (pstate * out) :=
+Fixpoint mmap (rc : bool) (s : pstate) (t : Z) (idxs : list Z) (w frame page pf : Z) : res (pstate * out) :=
   match idxs with
   | [] => Ok (s, [-99])
   | [i] =>
       if negb (rd s (t + 8 * i) =? 0) then Ok (s, [E_ALREADY_MAPPED; frame])
       else Ok (wr s (t + 8 * i) w, [0; page])
   | i :: rest =>
-      do r <- create_next_table s (t + 8 * i) pf;
+      do r <- create_next_table_g s (t + 8 * i) (new_parent_flags rc pf) pf;
       match snd r with
-      | CTable t' => mmap (fst r) t' rest w frame page pf
+      | CTable t' => mmap rc (fst r) t' rest w frame page pf
       | c => Ok (fst r, cerr c)
       end
   end.
 
 Lemma map_to_mmap s k page frame flags pf : 0 <= k <= 2 ->
   map_to s k page frame flags pf =
-  mmap s (root s) (zidx_list k page) (leaf_word k frame flags) frame page pf.
+  mmap false s (root s) (zidx_list k page) (leaf_word k frame flags) frame page pf.
 Proof.
   intros Hk. unfold map_to, zidx_list, leaf_word, slot4, slot3, slot2, slot1.
+  unfold create_next_table.
   destruct (k =? 2) eqn:E2.
-  - assert (k =? 0 = false) by lia. rewrite H. cbn [mmap].
-    destruct (create_next_table s (root s + 8 * p4_index page) pf) as [[s1 c]|]; [|reflexivity].
+  - assert (k =? 0 = false) by lia. rewrite H. cbn [mmap new_parent_flags].
+    destruct (create_next_table_g s (root s + 8 * p4_index page) pf pf) as [[s1 c]|]; [|reflexivity].
     cbn [bind fst snd]. destruct c; reflexivity.
   - destruct (k =? 1) eqn:E1.
-    + assert (k =? 0 = false) by lia. rewrite H. cbn [mmap].
-      destruct (create_next_table s (root s + 8 * p4_index page) pf) as [[s1 c]|]; [|reflexivity].
+    + assert (k =? 0 = false) by lia. rewrite H. cbn [mmap new_parent_flags].
+      destruct (create_next_table_g s (root s + 8 * p4_index page) pf pf) as [[s1 c]|]; [|reflexivity].
       cbn [bind fst snd]. destruct c; try reflexivity.
-      destruct (create_next_table s1 (f + 8 * p3_index page) pf) as [[s2 c2]|]; [|reflexivity].
+      destruct (create_next_table_g s1 (f + 8 * p3_index page) pf pf) as [[s2 c2]|]; [|reflexivity].
       cbn [bind fst snd]. destruct c2; reflexivity.
-    + assert (k =? 0 = true) by lia. rewrite H. cbn [mmap].
-      destruct (create_next_table s (root s + 8 * p4_index page) pf) as [[s1 c]|]; [|reflexivity].
+    + assert (k =? 0 = true) by lia. rewrite H. cbn [mmap new_parent_flags].
+      destruct (create_next_table_g s (root s + 8 * p4_index page) pf pf) as [[s1 c]|]; [|reflexivity].
       cbn [bind fst snd]. destruct c; try reflexivity.
-      destruct (create_next_table s1 (f + 8 * p3_index page) pf) as [[s2 c2]|]; [|reflexivity].
+      destruct (create_next_table_g s1 (f + 8 * p3_index page) pf pf) as [[s2 c2]|]; [|reflexivity].
       cbn [bind fst snd]. destruct c2; try reflexivity.
-      destruct (create_next_table s2 (f0 + 8 * p2_index page) pf) as [[s3 c3]|]; [|reflexivity].
+      destruct (create_next_table_g s2 (f0 + 8 * p2_index page) pf pf) as [[s3 c3]|]; [|reflexivity].
       cbn [bind fst snd]. destruct c3; reflexivity.
 Qed.
 
@@ -375,24 +376,34 @@ Proof.
   rewrite Z.lor_spec, H4, G4. reflexivity.
 Qed.
 
-Lemma create_step l s t ch i pf :
-  rep (S (S l)) s ch t -> tframe t -> sep s t ch -> 0 <= i < 512 -> pflags_ok pf ->
+Lemma pflags_ok_new_parent rc pf : pflags_ok pf -> pflags_ok (new_parent_flags rc pf).
+Proof.
+  intros (H1 & H2 & H3 & H4). destruct rc; cbn [new_parent_flags]; [|exact (conj H1 (conj H2 (conj H3 H4)))].
+  change (Z.lor PTF_PRESENT PTF_WRITABLE) with 3.
+  split; [apply lor_u64; [unfold W64; lia|exact H1]|].
+  split; [rewrite Z.land_lor_distr_l, H2; reflexivity|].
+  split; [rewrite Z.lor_spec; reflexivity|].
+  rewrite Z.lor_spec, H4. reflexivity.
+Qed.
+
+Lemma create_step_entry l s t ch i cf pf :
+  rep_entry (S l) s (child ch (Z.to_nat i)) (rd s (t + 8 * i)) -> tframe t -> sep s t ch -> 0 <= i < 512 -> pflags_ok cf -> pflags_ok pf ->
   match child ch (Z.to_nat i) with
   | Empty =>
       match allocate s with
-      | (None, s1) => create_next_table s (t + 8 * i) pf = Ok (s1, CAllocFailed)
+      | (None, s1) => create_next_table_g s (t + 8 * i) cf pf = Ok (s1, CAllocFailed)
       | (Some f, s1) =>
-          create_next_table s (t + 8 * i) pf = Ok (zero_table (wr s1 (t + 8 * i) (Z.lor f pf)) f, CTable f)
+          create_next_table_g s (t + 8 * i) cf pf = Ok (zero_table (wr s1 (t + 8 * i) (Z.lor f cf)) f, CTable f)
       end
-  | Leaf _ => create_next_table s (t + 8 * i) pf = Ok (s, CHuge)
+  | Leaf _ => create_next_table_g s (t + 8 * i) cf pf = Ok (s, CHuge)
   | Tab f fl sub =>
-      create_next_table s (t + 8 * i) pf =
+      create_next_table_g s (t + 8 * i) cf pf =
         Ok ((if (negb (pf =? 0) && negb (has fl pf))%bool then wr s (t + 8 * i) (Z.lor f (Z.lor fl pf)) else s),
             CTable f)
   end.
 Proof.
-  intros Hrep Ht Hsep Hi Hpf. pose proof (proj1 (rep_unfold _ _ _ _) Hrep i Hi) as He.
-  unfold create_next_table.
+  intros He Ht Hsep Hi Hcf Hpf.
+  unfold create_next_table_g.
   destruct (child ch (Z.to_nat i)) as [|w|f fl sub] eqn:Hc; cbn [rep_entry] in He.
   - rewrite He. cbn [Z.eqb].
     pose proof (allocate_spec s) as (Ha & Hm & _).
@@ -403,7 +414,7 @@ Proof.
       rewrite Hva. left. reflexivity. }
     destruct Hf as [Hfr Hfa]. rewrite Hfa. cbn [Z.eqb negb].
     rewrite rd_wr_same.
-    destruct (tab_word f pf (conj Hfr Hfa) Hpf) as (_ & _ & _ & _ & Hnt & _). rewrite Hnt. reflexivity.
+    destruct (tab_word f cf (conj Hfr Hfa) Hcf) as (_ & _ & _ & _ & Hnt & _). rewrite Hnt. reflexivity.
   - destruct He as [He (Hw & Hp & Hh & _)]. rewrite He.
     assert (Hnz : (w =? 0) = false).
     { apply Z.eqb_neq. intros H0. rewrite H0, Z.bits_0 in Hp. discriminate. }
@@ -421,6 +432,26 @@ Proof.
         unfold widen in Hw. rewrite Hcnd in Hw. exact Hw. }
       destruct (tab_word f (Z.lor fl pf) Hf Hfl') as (_ & _ & _ & _ & Hnt' & _). rewrite Hnt'. reflexivity.
     + rewrite He, Hnt. reflexivity.
+Qed.
+
+Lemma create_step l s t ch i cf pf :
+  rep (S (S l)) s ch t -> tframe t -> sep s t ch -> 0 <= i < 512 -> pflags_ok cf -> pflags_ok pf ->
+  match child ch (Z.to_nat i) with
+  | Empty =>
+      match allocate s with
+      | (None, s1) => create_next_table_g s (t + 8 * i) cf pf = Ok (s1, CAllocFailed)
+      | (Some f, s1) =>
+          create_next_table_g s (t + 8 * i) cf pf = Ok (zero_table (wr s1 (t + 8 * i) (Z.lor f cf)) f, CTable f)
+      end
+  | Leaf _ => create_next_table_g s (t + 8 * i) cf pf = Ok (s, CHuge)
+  | Tab f fl sub =>
+      create_next_table_g s (t + 8 * i) cf pf =
+        Ok ((if (negb (pf =? 0) && negb (has fl pf))%bool then wr s (t + 8 * i) (Z.lor f (Z.lor fl pf)) else s),
+            CTable f)
+  end.
+Proof.
+  intros Hrep Ht Hsep Hi Hcf Hpf.
+  apply (create_step_entry l s t ch i cf pf (proj1 (rep_unfold _ _ _ _) Hrep i Hi) Ht Hsep Hi Hcf Hpf).
 Qed.
 
 (* ---------- rebuilding rep after a change at one slot ---------- *)
@@ -480,10 +511,10 @@ Qed.
 
 (* ---------- the simulation ---------- *)
 Definition out_of (r : tres) : out := match r with TOk x => x | TErr x => x end.
-Definition sim_post (l : nat) (s : pstate) (t : Z) (ch : list node) (idxs : list Z)
+Definition sim_post (rc : bool) (l : nat) (s : pstate) (t : Z) (ch : list node) (idxs : list Z)
   (w frame page pf : Z) (s' : pstate) (o : out) : Prop :=
   exists ch' a' r,
-    map_path false ch (map Z.to_nat idxs) w frame page pf (aor_of s) = (ch', a', r) /\
+    map_path rc ch (map Z.to_nat idxs) w frame page pf (aor_of s) = (ch', a', r) /\
     o = out_of r /\ aor_of s' = a' /\ root s' = root s /\ freed s' = freed s /\
     rep (S l) s' ch' t /\ sep s' t ch' /\
     Permutation (frames_of ch' ++ va s') (frames_of ch ++ va s) /\
@@ -499,9 +530,9 @@ Proof.
   - destruct H as (-> & Hf & Hfl & _). apply (tab_word f fl Hf Hfl).
 Qed.
 
-Lemma mmap_final l s t ch i w frame page pf :
+Lemma mmap_final rc l s t ch i w frame page pf :
   0 <= i < 512 -> rep (S l) s ch t -> tframe t -> sep s t ch -> leaf_ok (S l) w ->
-  exists s' o, mmap s t [i] w frame page pf = Ok (s', o) /\ sim_post l s t ch [i] w frame page pf s' o.
+  exists s' o, mmap rc s t [i] w frame page pf = Ok (s', o) /\ sim_post rc l s t ch [i] w frame page pf s' o.
 Proof.
   intros Hi Hrep Ht Hsep Hw. unfold sim_post. cbn [mmap map map_path].
   pose proof (proj1 (rep_unfold _ _ _ _) Hrep i Hi) as He.
@@ -559,14 +590,14 @@ Proof.
 Qed.
 
 (* a fresh table is linked at slot i and the rest of the path is mapped inside it *)
-Lemma sim_new_table l' s s1 t ch i i2 rest f w frame page pf s' o :
+Lemma sim_new_table rc l' s s1 t ch i i2 rest f w frame page pf s' o :
   0 <= i < 512 -> rep (S (S l')) s ch t -> tframe t -> sep s t ch -> pflags_ok pf ->
   child ch (Z.to_nat i) = Empty -> allocate s = (Some f, s1) ->
-  sim_post l' (zero_table (wr s1 (t + 8 * i) (Z.lor f pf)) f) f empty_children (i2 :: rest) w frame page pf s' o ->
-  sim_post (S l') s t ch (i :: i2 :: rest) w frame page pf s' o.
+  sim_post rc l' (zero_table (wr s1 (t + 8 * i) (Z.lor f (new_parent_flags rc pf))) f) f empty_children (i2 :: rest) w frame page pf s' o ->
+  sim_post rc (S l') s t ch (i :: i2 :: rest) w frame page pf s' o.
 Proof.
   intros Hi Hrep Ht Hsep Hpf Hc Hal (ch2 & a' & r & Hmp & Ho & Haor & Hroot & Hfreed & Hrep2 & Hsep2 & Hperm2 & Hfr2).
-  set (slot := t + 8 * i) in *. set (s2 := wr s1 slot (Z.lor f pf)) in *. set (s3 := zero_table s2 f) in *.
+  set (slot := t + 8 * i) in *. set (s2 := wr s1 slot (Z.lor f (new_parent_flags rc pf))) in *. set (s3 := zero_table s2 f) in *.
   pose proof (allocate_spec s) as (Ha & Hm1 & Hr1 & Hf1). rewrite Hal in Ha, Hm1, Hr1, Hf1. cbn [snd] in *.
   destruct Ha as [Hva Hta].
   assert (Hsa3 : same_alloc s1 s3).
@@ -583,7 +614,7 @@ Proof.
     - unfold s2. rewrite (rd_wr_outside s1 t); auto; [apply rd_pmem; exact Hm1|].
       unfold slot, in_frame. destruct Ht. lia.
     - unfold in_frame in Hnf. lia. }
-  assert (Mslot : forall j, 0 <= j < 512 -> rd s3 (t + 8 * j) = if j =? i then Z.lor f pf else rd s (t + 8 * j)).
+  assert (Mslot : forall j, 0 <= j < 512 -> rd s3 (t + 8 * j) = if j =? i then Z.lor f (new_parent_flags rc pf) else rd s (t + 8 * j)).
   { intros j Hj. unfold s3. rewrite zero_table_elsewhere; try (destruct Hft; lia); [| destruct Ht; lia |].
     - unfold s2, slot. destruct (Z.eqb_spec j i) as [->|Hji].
       + apply rd_wr_same.
@@ -603,18 +634,18 @@ Proof.
     exfalso. clear -Hg Hne Hva Hva3 Hnin. destruct Hg as [Hg|Hg]; [congruence|].
     apply Hnin. apply in_or_app. right. rewrite Hva. right. rewrite <- Hva3. exact Hg. }
   (* the tree side *)
-  exists (set_child ch (Z.to_nat i) (Tab f pf ch2)), a', r.
+  exists (set_child ch (Z.to_nat i) (Tab f (new_parent_flags rc pf) ch2)), a', r.
   split.
-  { cbn [map]. rewrite map_path_step, Hc, Hta. cbn [new_parent_flags].
+  { cbn [map]. rewrite map_path_step, Hc, Hta.
     change (Z.to_nat i2 :: map Z.to_nat rest) with (map Z.to_nat (i2 :: rest)).
     rewrite <- Haor3. rewrite Hmp. reflexivity. }
   split; [exact Ho|]. split; [exact Haor|].
   split; [rewrite Hroot; destruct Hsa3 as (_ & _ & _ & Hr3); rewrite Hr3; exact Hr1|].
   split; [rewrite Hfreed; destruct Hsa3 as (_ & _ & Hf3 & _); rewrite Hf3; exact Hf1|].
   (* frames *)
-  destruct (frames_of_set_child ch (Z.to_nat i) (Tab f pf ch2)) as (pre & post & E1 & E2).
+  destruct (frames_of_set_child ch (Z.to_nat i) (Tab f (new_parent_flags rc pf) ch2)) as (pre & post & E1 & E2).
   rewrite Hc in E1. cbn [node_frames app] in E1, E2. fold (frames_of ch2) in E2.
-  assert (Pall : Permutation (frames_of (set_child ch (Z.to_nat i) (Tab f pf ch2)) ++ va s') (frames_of ch ++ va s)).
+  assert (Pall : Permutation (frames_of (set_child ch (Z.to_nat i) (Tab f (new_parent_flags rc pf) ch2)) ++ va s') (frames_of ch ++ va s)).
   { rewrite E1, E2, Hva. rewrite frames_of_empty_children in Hperm2. cbn [app] in Hperm2.
     rewrite Hva3 in Hperm2.
     rewrite <- !app_assoc. apply Permutation_app_head. cbn [app].
@@ -624,11 +655,11 @@ Proof.
     { rewrite !app_assoc. apply Permutation_app_tail. apply Permutation_app_comm. }
     apply Permutation_app_head. exact Hperm2. }
   split.
-  { apply (rep_update (S l') s s' ch t i (Tab f pf ch2) Hi Hrep).
+  { apply (rep_update (S l') s s' ch t i (Tab f (new_parent_flags rc pf) ch2) Hi Hrep).
     - cbn [rep_entry].
       rewrite Hfr2; [|destruct Ht; lia|apply Hout2; unfold in_frame; destruct Ht; lia].
       rewrite Mslot by exact Hi. rewrite Z.eqb_refl.
-      split; [reflexivity|]. split; [exact Hft|]. split; [exact Hpf|exact Hrep2].
+      split; [reflexivity|]. split; [exact Hft|]. split; [apply pflags_ok_new_parent; exact Hpf|exact Hrep2].
     - intros j Hj Hji.
       rewrite Hfr2; [|destruct Ht; lia|apply Hout2; unfold in_frame; destruct Ht; lia].
       rewrite Mslot by exact Hj. destruct (Z.eqb_spec j i); [contradiction|reflexivity].
@@ -654,12 +685,12 @@ Proof.
 Qed.
 
 (* the table at slot i exists: its flags are widened and the rest of the path is mapped inside it *)
-Lemma sim_existing_table l' s t ch i i2 rest f fl sub w frame page pf s' o :
+Lemma sim_existing_table rc l' s t ch i i2 rest f fl sub w frame page pf s' o :
   0 <= i < 512 -> rep (S (S l')) s ch t -> tframe t -> sep s t ch -> pflags_ok pf ->
   child ch (Z.to_nat i) = Tab f fl sub ->
-  sim_post l' (if (negb (pf =? 0) && negb (has fl pf))%bool then wr s (t + 8 * i) (Z.lor f (Z.lor fl pf)) else s)
+  sim_post rc l' (if (negb (pf =? 0) && negb (has fl pf))%bool then wr s (t + 8 * i) (Z.lor f (Z.lor fl pf)) else s)
            f sub (i2 :: rest) w frame page pf s' o ->
-  sim_post (S l') s t ch (i :: i2 :: rest) w frame page pf s' o.
+  sim_post rc (S l') s t ch (i :: i2 :: rest) w frame page pf s' o.
 Proof.
   intros Hi Hrep Ht Hsep Hpf Hc (ch2 & a' & r & Hmp & Ho & Haor & Hroot & Hfreed & Hrep2 & Hsep2 & Hperm2 & Hfr2).
   set (slot := t + 8 * i) in *.
@@ -762,11 +793,11 @@ Proof.
   - pose proof (Permutation_Forall P HF) as HF'. apply Forall_app in HF'. apply HF'.
 Qed.
 
-Theorem mmap_sim idxs : forall l s t ch w frame page pf,
+Theorem mmap_sim rc idxs : forall l s t ch w frame page pf,
   idxs <> [] -> (length idxs <= S l)%nat -> Forall (fun i => 0 <= i < 512) idxs ->
   rep (S l) s ch t -> tframe t -> sep s t ch -> pflags_ok pf ->
   leaf_ok (S l - (length idxs - 1)) w ->
-  exists s' o, mmap s t idxs w frame page pf = Ok (s', o) /\ sim_post l s t ch idxs w frame page pf s' o.
+  exists s' o, mmap rc s t idxs w frame page pf = Ok (s', o) /\ sim_post rc l s t ch idxs w frame page pf s' o.
 Proof.
   induction idxs as [|i rest IH]; intros l s t ch w frame page pf Hne Hlen Hidx Hrep Ht Hsep Hpf Hw; [contradiction|].
   inversion Hidx as [|? ? Hi Hrest]; subst.
@@ -778,11 +809,11 @@ Proof.
     assert (Hw' : leaf_ok (S l' - (length (i2 :: rest) - 1)) w).
     { replace (S l' - (length (i2 :: rest) - 1))%nat with (S (S l') - (length (i :: i2 :: rest) - 1))%nat
         by (cbn [length]; lia). exact Hw. }
-    pose proof (create_step l' s t ch i pf Hrep Ht Hsep Hi Hpf) as Hcs.
-    change (mmap s t (i :: i2 :: rest) w frame page pf) with
-      (do r <- create_next_table s (t + 8 * i) pf;
+    pose proof (create_step l' s t ch i (new_parent_flags rc pf) pf Hrep Ht Hsep Hi (pflags_ok_new_parent rc pf Hpf) Hpf) as Hcs.
+    change (mmap rc s t (i :: i2 :: rest) w frame page pf) with
+      (do r <- create_next_table_g s (t + 8 * i) (new_parent_flags rc pf) pf;
        match snd r with
-       | CTable t' => mmap (fst r) t' (i2 :: rest) w frame page pf
+       | CTable t' => mmap rc (fst r) t' (i2 :: rest) w frame page pf
        | c => Ok (fst r, cerr c)
        end).
     destruct (child ch (Z.to_nat i)) as [|w0|f fl sub] eqn:Hc.
@@ -791,9 +822,9 @@ Proof.
       destruct (allocate s) as [[f|] s1] eqn:Hal; cbn [snd] in *.
       * rewrite Hcs. cbn [bind fst snd].
         destruct Ha as [Hva Hta].
-        set (s3 := zero_table (wr s1 (t + 8 * i) (Z.lor f pf)) f).
+        set (s3 := zero_table (wr s1 (t + 8 * i) (Z.lor f (new_parent_flags rc pf))) f).
         assert (Hsa3 : same_alloc s1 s3).
-        { apply (same_alloc_trans s1 (wr s1 (t + 8 * i) (Z.lor f pf)) s3); [apply same_alloc_wr|apply same_alloc_zero_from]. }
+        { apply (same_alloc_trans s1 (wr s1 (t + 8 * i) (Z.lor f (new_parent_flags rc pf))) s3); [apply same_alloc_wr|apply same_alloc_zero_from]. }
         destruct (same_alloc_va _ _ Hsa3) as [Hva3 _].
         assert (Hft : tframe f).
         { destruct Hsep as [_ HF]. rewrite Forall_forall in HF. apply HF. right. apply in_or_app. right.
@@ -809,7 +840,7 @@ Proof.
         -- exact Hpf.
         -- exact Hw'.
         -- exists s', o. split; [exact Hm|].
-           apply (sim_new_table l' s s1 t ch i i2 rest f w frame page pf s' o); assumption.
+           apply (sim_new_table rc l' s s1 t ch i i2 rest f w frame page pf s' o); assumption.
       * rewrite Hcs. cbn [bind fst snd cerr].
         destruct Ha as [Hva Hta].
         eexists _, _. split; [reflexivity|].
@@ -853,7 +884,7 @@ Proof.
       * exact Hpf.
       * exact Hw'.
       * exists s', o. split; [exact Hm|].
-        apply (sim_existing_table l' s t ch i i2 rest f fl sub w frame page pf s' o); assumption.
+        apply (sim_existing_table rc l' s t ch i i2 rest f fl sub w frame page pf s' o); assumption.
 Qed.
 
 (* ---------- map_to of the memory model refines map_path of the tree ---------- *)
@@ -868,22 +899,27 @@ Proof.
   destruct (Z.eqb_spec k 1) as [->|]; [reflexivity|]. assert (k = 0) by lia. subst. reflexivity.
 Qed.
 
-Theorem map_to_refines s ch k page frame flags pf :
+(* map_to with the parent-entry creation flags of either mapper kind (rc = true: the recursive
+   mapper's PRESENT | WRITABLE | parent flags) *)
+Definition map_to_rc (rc : bool) (s : pstate) (k page frame flags pf : Z) : res (pstate * out) :=
+  mmap rc s (root s) (zidx_list k page) (leaf_word k frame flags) frame page pf.
+
+Theorem map_to_rc_refines rc s ch k page frame flags pf :
   0 <= k <= 2 ->
   rep 4 s ch (root s) -> tframe (root s) -> sep s (root s) ch -> pflags_ok pf ->
   leaf_ok (Z.to_nat (k + 1)) (leaf_word k frame flags) ->
   exists s' o ch' a' r,
-    map_to s k page frame flags pf = Ok (s', o) /\
-    map_path false ch (idx_list k page) (leaf_word k frame flags) frame page pf (aor_of s) = (ch', a', r) /\
+    map_to_rc rc s k page frame flags pf = Ok (s', o) /\
+    map_path rc ch (idx_list k page) (leaf_word k frame flags) frame page pf (aor_of s) = (ch', a', r) /\
     o = out_of r /\ aor_of s' = a' /\ root s' = root s /\ freed s' = freed s /\
     rep 4 s' ch' (root s') /\ sep s' (root s') ch' /\
     (forall a, 0 <= a -> ~ in_frames (root s :: frames_of ch ++ va s) a -> rd s' a = rd s a).
 Proof.
   intros Hk Hrep Ht Hsep Hpf Hw.
-  rewrite map_to_mmap by exact Hk. rewrite idx_list_zidx.
+  unfold map_to_rc. rewrite idx_list_zidx.
   assert (Hne : zidx_list k page <> []).
   { unfold zidx_list. destruct (k =? 2); [discriminate|]. destruct (k =? 1); discriminate. }
-  destruct (mmap_sim (zidx_list k page) 3 s (root s) ch (leaf_word k frame flags) frame page pf Hne)
+  destruct (mmap_sim rc (zidx_list k page) 3 s (root s) ch (leaf_word k frame flags) frame page pf Hne)
     as (s' & o & Hm & (ch' & a' & r & Hmp & Ho & Haor & Hroot & Hfreed & Hrep' & Hsep' & _ & Hfr)).
   - rewrite zidx_length by exact Hk. lia.
   - apply zidx_ranges.
@@ -896,6 +932,20 @@ Proof.
   - exists s', o, ch', a', r. rewrite Hroot.
     split; [exact Hm|]. split; [exact Hmp|]. split; [exact Ho|]. split; [exact Haor|].
     split; [reflexivity|]. split; [exact Hfreed|]. split; [exact Hrep'|]. split; [exact Hsep'|]. exact Hfr.
+Qed.
+
+Theorem map_to_refines s ch k page frame flags pf :
+  0 <= k <= 2 ->
+  rep 4 s ch (root s) -> tframe (root s) -> sep s (root s) ch -> pflags_ok pf ->
+  leaf_ok (Z.to_nat (k + 1)) (leaf_word k frame flags) ->
+  exists s' o ch' a' r,
+    map_to s k page frame flags pf = Ok (s', o) /\
+    map_path false ch (idx_list k page) (leaf_word k frame flags) frame page pf (aor_of s) = (ch', a', r) /\
+    o = out_of r /\ aor_of s' = a' /\ root s' = root s /\ freed s' = freed s /\
+    rep 4 s' ch' (root s') /\ sep s' (root s') ch' /\
+    (forall a, 0 <= a -> ~ in_frames (root s :: frames_of ch ++ va s) a -> rd s' a = rd s a).
+Proof.
+  intros Hk. rewrite map_to_mmap by exact Hk. apply (map_to_rc_refines false s ch k page frame flags pf Hk).
 Qed.
 
 (* the empty level-4 table *)
